@@ -52,7 +52,7 @@ class HarnessError(Exception):
 
 class Task:
     __slots__ = ("id", "name", "pid", "thread", "sem", "pred", "why", "wake_at", "done",
-                 "exc", "started", "daemon", "fn", "steps", "slow")
+                 "exc", "started", "daemon", "fn", "steps", "slow", "killed")
 
     def __init__(self, tid, name, pid, fn, daemon):
         self.id = tid
@@ -64,6 +64,7 @@ class Task:
         self.why = None           # description of what it is blocked on
         self.wake_at = None       # virtual-time deadline of a sleeper
         self.done = False
+        self.killed = False       # terminated from outside (SimProcess.terminate): dies at its next resumption
         self.exc = None
         self.started = False
         self.daemon = daemon
@@ -188,7 +189,7 @@ class Sim:
     def _body(self, t):
         t.sem.acquire()
         t.started = True
-        if not self.killing:
+        if not self.killing and not getattr(t, "killed", False):
             try:
                 t.fn()
             except SimKill:
@@ -368,11 +369,13 @@ class Sim:
             me.pred = None
             me.why = None
             me.steps += 1
+            if getattr(me, "killed", False):
+                raise SimKill()
             return
         self._transfer(me, nxt)
         nxt.sem.release()
         me.sem.acquire()
-        if self.killing:
+        if self.killing or getattr(me, "killed", False):
             raise SimKill()
         me.pred = None
         me.why = None
@@ -392,6 +395,22 @@ class Sim:
     def checkpoint(self):
         if self.killing:
             raise SimKill()
+        cur = self.current
+        if cur is not None and getattr(cur, "killed", False) and cur.thread is threading.current_thread():
+            raise SimKill()         # a terminated process runs no clean-up: every primitive its unwinding finally-blocks touch is inert
+
+    def kill_pid(self, pid):
+        """SIGTERM / SIGKILL for a simulated process: each of its tasks dies at the yield point where it is parked (no finally block gets to
+        use a primitive, held locks stay held).  The tasks become runnable so that they unwind; callers wait for ``done`` as usual."""
+        n = 0
+        for t in self.tasks:
+            if t.pid == pid and not t.done and not getattr(t, "killed", False):
+                t.killed = True
+                t.pred = None
+                t.wake_at = None
+                t.why = "killed"
+                n += 1
+        return n
 
     def yield_(self, why="yield"):
         self.checkpoint()
